@@ -4,8 +4,9 @@
 THIS process the module's `np` is replaced by a pure-Python stub of the documented contract (array = list,
 unique(return_counts) = sorted distinct values with their counts).  Every counterexample is replayed by the
 check on the unpatched module."""
+import os
 import sys
-sys.path.insert(0, '/repo')
+sys.path.insert(0, os.environ.get('DVERIF_REPO', '/repo'))
 from dinosaur import pytree_utils as pu
 
 
